@@ -25,8 +25,8 @@ class C04(Property):
         "in-between budgets are unconstrained: they must end in success with clean monitors or exactly FinamCircularCouplingError",
         "delay-to-pull adapters are not used for cycle budgets (their shift depends on the pull history)",
     )
-    cases = {"quick": 1200, "thorough": 30000}
-    min_nontrivial = {"quick": 400, "thorough": 6000}
+    cases = {"quick": 1200, "thorough": 150000}
+    min_nontrivial = {"quick": 400, "thorough": 30000}
 
     def gen(self, rnd, i, tier):
         if i % 6 == 5:
